@@ -30,7 +30,7 @@
    * common ancestor of an empty list / of a list containing genesis: answered 500 before the fixes 5ab472d / 5c09f8d of /repo,
      now 400 (C04_common_ancestor_endpoint_status). *)
 From Coq Require Import ZArith NArith List.
-From BHS Require Import Store Chain ChainSpec StoreProofs ChainInv ChainMain ChainFields Query QueryProofs QueryAncProofs QueryCaProofs QueryExamples.
+From BHS Require Import Store Chain ChainSpec StoreProofs ChainInv ChainMain ChainFields Query QueryProofs QueryAncProofs QueryCaProofs QueryAnyWork QueryExamples.
 Import ListNotations.
 Open Scope Z_scope.
 
@@ -107,11 +107,11 @@ Proof. exact common_ancestor_late_parent_refuted. Qed.
 (* ================================================================== any work (zero-work headers included) *)
 (* every store reachable by ingestion satisfies the any-work invariant *)
 Theorem C04_reachable_any_work : forall f gid gpl hs, gid <> 0%N -> nonzero_ids hs -> InvSome (run f gid gpl hs).
-Proof. exact reachable_inv. Qed.
+Proof. exact reachable_invsome. Qed.
 
 Theorem C04_lookup_any_work : forall s t, InvSome s ->
   (forall r, get_by_hash s t = Some r <-> In r s /\ id r = t) /\ (get_by_hash s t = None <-> ~ In t (ids s)).
-Proof. intros s t H. apply lookup_spec_wf, inv_wf, H. Qed.
+Proof. exact lookup_any_work. Qed.
 
 (* tip/longest reports the tip of the invariant (the row all Longest labels derive from): Longest, above every other Longest row *)
 Theorem C04_tip_longest_any_work : forall s tip, Inv s tip ->
@@ -123,29 +123,32 @@ Proof. exact tip_longest_inv. Qed.
 Theorem C04_by_height_any_work : forall s h c, InvSome s ->
   (forall r, In r (by_height_range s h c) -> In r s /\ h <= height r <= h + count_of c - 1) /\
   (forall r, In r s -> st r = Longest -> h <= height r <= h + count_of c - 1 -> In r (by_height_range s h c)).
-Proof. intros s h c _. apply by_height_spec. Qed.
+Proof. exact by_height_any_work. Qed.
 
 Theorem C04_tips_any_work : forall s tip, Inv s tip ->
   exists t, tipB s = Some t /\ by_hash s tip = Some t /\ st t = Longest /\
     forall r, In r (tips s) <-> r = t \/ (In r s /\ st r <> Longest /\ ~ has_child s r).
 Proof. exact tips_spec_inv. Qed.
 
+Theorem C04_connected_regular_any_work : forall s t x, InvSome s -> by_hash s t = Some x -> orph x = false -> regular s t.
+Proof. exact connected_regular_any_work. Qed.
+
 Theorem C04_ancestors_any_work : forall s a b, InvSome s -> regular s a -> ancestors_answer_ok s a b (ancestors s a b).
-Proof. intros s a b H. apply ancestors_spec_wf, inv_wf, H. Qed.
+Proof. exact ancestors_any_work. Qed.
 
 Theorem C04_ancestors_iff_any_work : forall s a b, InvSome s -> regular s a ->
   ((exists p, ancestors s a b = AOk p) <-> exists rb, by_hash s b = Some rb /\ reach s a rb).
-Proof. intros s a b H. apply ancestors_iff_wf, inv_wf, H. Qed.
+Proof. exact ancestors_iff_any_work. Qed.
 
 Theorem C04_common_ancestor_any_work : forall s l hs, InvSome s -> l <> [] -> (forall t, In t l -> regular s t) ->
   Forall2 (fun t r => by_hash s t = Some r) l hs ->
   common_answer_ok s l (min_height hs max_int32) (common_ancestor s l).
-Proof. intros s l hs H. apply common_ancestor_spec_wf, inv_wf, H. Qed.
+Proof. exact common_ancestor_any_work. Qed.
 
 Theorem C04_common_ancestor_connected_any_work : forall s l hs, InvSome s -> l <> [] ->
   Forall2 (fun t r => by_hash s t = Some r /\ orph r = false) l hs -> 1 <= min_height hs max_int32 ->
   exists r, common_ancestor s l = COk r.
-Proof. intros s l hs H. apply common_ancestor_connected_wf, inv_wf, H. Qed.
+Proof. exact common_ancestor_connected_any_work. Qed.
 
 Print Assumptions C04_lookup.
 Print Assumptions C04_tip_longest.
@@ -170,3 +173,4 @@ Print Assumptions C04_ancestors_any_work.
 Print Assumptions C04_ancestors_iff_any_work.
 Print Assumptions C04_common_ancestor_any_work.
 Print Assumptions C04_common_ancestor_connected_any_work.
+Print Assumptions C04_connected_regular_any_work.
